@@ -179,3 +179,62 @@ def c02_m_accessors(o):
     o.claim("subsec", z3.And(g["timestamp_subsec_nanos"].e == tf.e, g["timestamp_subsec_micros"].e == tf.e / 1000, g["timestamp_subsec_millis"].e == tf.e / 1000000))
     o.claim("nanos_some_iff_fits", opt_is_some(nn) == z3.And(exact >= -(1 << 63), exact <= (1 << 63) - 1))
     o.claim("nanos_exact", z3.Implies(opt_is_some(nn), opt_payload(nn).e == exact))
+
+
+# ---- SystemTime <-> DateTime<Utc> ------------------------------------------------------------------
+# std::time::SystemTime is modelled as what its documentation says it is: an exact instant, here an integer number of
+# nanoseconds relative to UNIX_EPOCH.  duration_since / SystemTimeError::duration / +Duration / -Duration are the
+# corresponding integer operations.  The chrono code between those calls is executed from the MIR.
+
+def _systemtime_model(o):
+    ST = lambda e: Agg("struct", "SystemTime", [IntV(e, "i128")])
+    o.ex.const_overrides["std::time::UNIX_EPOCH"] = ST(z3.IntVal(0))
+
+    def dur(e):
+        return Agg("struct", "Duration", [IntV(e / G, "u64"), IntV(e % G, "u32")])
+
+    def duration_since(ex, st, a):
+        t, base = ex.load(st, a[0]).fields[0].e, ex.load(st, a[1]).fields[0].e
+        d = t - base
+        return st, EnumV("Result", z3.If(d >= 0, 0, 1), {0: [dur(d)], 1: [Agg("struct", "SystemTimeError", [dur(-d)])]})
+
+    def err_duration(ex, st, a):
+        return st, ex.load(st, a[0]).fields[0]
+
+    def add(sign):
+        def f(ex, st, a):
+            t = ex.load(st, a[0]).fields[0].e
+            d = a[1]
+            return st, ST(t + sign * (d.fields[0].e * G + d.fields[1].e))
+        return f
+    o.summarize_raw(r"^SystemTime::duration_since$", duration_since)
+    o.summarize_raw(r"^SystemTimeError::duration$", err_duration)
+    o.summarize_raw(r"^<SystemTime as Add<std::time::Duration>>::add$", add(1))
+    o.summarize_raw(r"^<SystemTime as Sub<std::time::Duration>>::sub$", add(-1))
+    return ST
+
+
+@obligation(prop="C02", tier="quick", timeout=900, probe="systemtime",
+            desc="SystemTime -> DateTime<Utc> -> SystemTime preserves the instant: From<SystemTime> for DateTime<Utc> yields the date-time exactly that many nanoseconds from the epoch (pre-epoch instants split with floor, including a zero sub-second part), and From<DateTime<Utc>> for SystemTime gives that instant back",
+            bounds="all instants whose UTC date-time is representable, at nanosecond resolution; SystemTime modelled as an exact integer nanosecond count (its documented meaning); day-number kernels via their C01 contracts",
+            outside="platform limits of SystemTime itself (std may panic on overflow of its own representation); DateTime<Local>")
+def c02_m_systemtime(o):
+    use_contracts(o)
+    ST = _systemtime_model(o)
+    o.set_tyenv(Tz="Utc")
+    T = o.input("T", "i128")
+    lo_ns = (LO - EPOCH) * DAY * G
+    hi_ns = ((HI - EPOCH) * DAY + DAY) * G - 1
+    o.require(z3.And(T.e >= lo_ns, T.e <= hi_ns))
+    dt = o.call("<DateTime<Utc> as From<SystemTime>>::from", ST(T.e), name="from_systemtime")
+    yof, tsec, tfrac = dt_parts(dt)
+    Y, O = decode(o, yof, "st")
+    o.no_panic()
+    o.reachable("pre_epoch_whole_second", z3.And(T.e < 0, T.e % G == 0))
+    o.reachable("pre_epoch_fraction", z3.And(T.e < 0, T.e % G != 0))
+    s = T.e / G
+    o.claim("denotes_the_instant", z3.And(dayno(Y, O) == s / DAY + EPOCH, tsec == s % DAY, tfrac == T.e % G))
+    back = o.call("<SystemTime as From<DateTime<Utc>>>::from", dt, name="to_systemtime")
+    o.flat = [Y, O, tsec, tfrac, back.fields[0].e]
+    o.no_panic("no_panic_back")
+    o.claim("round_trip", back.fields[0].e == T.e)
